@@ -17,8 +17,8 @@ UNPROVED += ['Relic.Props.C01.cat_sign_then_verify_full (one statement from the 
 import appxv as _appxv
 UNPROVED = list(UNPROVED) + _appxv.UNPROVED_C01
 
-UNPROVED += ['Relic.Props.C01.xar_sign_then_verify_full (false on the unchanged tree: members without <archived-checksum> (xar_verify_needs_archived_checksum, FXAR1) and members in front of the old signature area (C03.xar_front_member_lost, FXAR3); proved for regular documents: xar_sign_then_verify)']
 
 import csvfy as _csvfy  # Apple code signatures, decision level: Relic.Props.C01.csblob_sign_then_verify (lean/Relic/Props/C01_CsVerify.lean)
 UNPROVED += _csvfy.UNPROVED_C01
 # dmg_sign_then_verify_full, deb_sign_then_verify_full: proved (Props/C01_DmgFull.lean dmg_sign_then_verify_end_to_end, Props/C01_DebFull.lean deb_sign_then_verify_text)
+UNPROVED += ['Relic.Props.C01.xar_sign_then_verify_full (not a theorem on either tree: outside regularDoc the two XML readers disagree - a <file> with two <data> children, a number spelled " 5" - so etree shifts another element / value than encoding/xml reads; since 5d6eee4 Sign itself refuses members without <archived-checksum> and members in front of the old signature area (xar_sign_refuses_bad_layouts, xar_sign_refusal_is_clean), so xar_sign_then_verify needs neither hypothesis any more; the tree before: xar_sign_then_verify_orig)']
